@@ -119,7 +119,7 @@ pub fn diff_pair(uni: &Universe, x: &dyn Subj, y: &dyn Subj, writer: &str, acc: 
     }
 }
 
-pub fn visit(mapping: &[u8], uni: &Universe, case0: &dyn Fn() -> Value, acc: &mut Acc) {
+pub fn visit(mapping: &[u8], unis: &[Universe], case0: &dyn Fn() -> Value, acc: &mut Acc) {
     acc.states += 1;
     let size = mapping.len();
     let mut ab = Aligned::new(&[]);
@@ -147,7 +147,11 @@ pub fn visit(mapping: &[u8], uni: &Universe, case0: &dyn Fn() -> Value, acc: &mu
             let rp = pin::ProguardCache::parse(ab.as_slice());
             let rc = cur::ProguardCache::parse(ab.as_slice());
             match (&rp, &rc) {
-                (Ok(p), Ok(c)) => diff_pair(uni, p, c, writer, acc, size, &case),
+                (Ok(p), Ok(c)) => {
+                    for uni in unis {
+                        diff_pair(uni, p, c, writer, acc, size, &case)
+                    }
+                }
                 _ => {
                     // a reader may refuse a file only with the wrong-version error
                     if let Err(e) = &rp {
@@ -217,8 +221,8 @@ pub fn run(tier: Tier) -> i32 {
                 acc.transitions += if lines.len() > last { (lines.len() - last) as u64 } else { 1 };
                 last = lines.len();
                 print_file_into(lines, term, &mut bytes);
-                let uni = Universe::from_ast(lines, sp.wide());
-                visit(&bytes, &uni, &|| file_to_json(lines, term), acc);
+                let unis = crate::q::universes_for(lines, sp.wide());
+                visit(&bytes, &unis, &|| file_to_json(lines, term), acc);
                 acc.sample(1, || json!({"scope": sp.name(), "mapping": esc(&bytes), "pairs": "(pinned,pinned) (pinned,current) (current,pinned) (current,current)"}));
                 acc.count(&format!("states[{}]", sp.name()), 1);
             });
@@ -308,8 +312,8 @@ pub fn recheck(case: &Value) -> Vec<String> {
         "ast" => {
             let (lines, term) = file_from_json(case);
             let bytes = print_file(&lines, term);
-            let uni = Universe::from_ast(&lines, false);
-            visit(&bytes, &uni, &|| file_to_json(&lines, term), &mut acc);
+            let unis = crate::q::universes_for(&lines, false);
+            visit(&bytes, &unis, &|| file_to_json(&lines, term), &mut acc);
         }
         "corpus" => {
             // re-run the whole file (all blocks) on one thread
@@ -318,7 +322,7 @@ pub fn recheck(case: &Value) -> Vec<String> {
                 if let Some(uni) = universe_from_bytes(&bytes) {
                     let mut small = uni.clone();
                     small.lines.truncate(12);
-                    visit(&bytes, &small, &|| json!({"kind":"corpus","file":name}), &mut acc);
+                    visit(&bytes, std::slice::from_ref(&small), &|| json!({"kind":"corpus","file":name}), &mut acc);
                 }
             }
         }
